@@ -20,6 +20,7 @@ LEVEL_TEXT = (
     "in the caller's structure with a leading time axis of the requested length; (b) permuting components permutes the solution; (c) "
     "jit(solve) equals the un-jitted solve; (d) vmap(solve)(batch)[i] equals solve(batch[i]) - finite always, values to 1e-5 when the "
     "step counts coincide, otherwise within the tolerance-level bound."
+    " (e) jit_sequence: one jax.jit(solve) whose only structured argument is the prior is called on two problems of equal size but different structure in a row - each call must equal the un-jitted call and return the caller's structure. Cases whose solution moves by more than 1e-8 under a 1e-13 perturbation of the inputs are inconclusive (ill-conditioned)."
 )
 LEVEL_NOTE = "Metamorphic oracle (the library against itself under a transformation that must not matter); tolerances 1e-6 (means) / 1e-3 (standard deviations) relative to block magnitudes for (a)-(c), 1e-5 for vmap with equal step counts."
 RULE = (
